@@ -24,7 +24,9 @@ import (
 // layout with the results of scrypt / AES / "address of a key" computed here and handed to the model
 // as the values of its parameters.
 func famLayout(c *ctx) {
-	switch c.r.Intn(10) {
+	switch c.r.Intn(12) {
+	case 10, 11:
+		layoutPrefixPairs(c)
 	case 0, 1, 2, 3, 4:
 		layoutPubkey(c)
 	case 5, 6, 7:
@@ -171,6 +173,82 @@ func layoutPubkey(c *ctx) {
 	}
 	o.Count(fmt.Sprintf("layout:pubkind%02d", kind))
 	o.Seen(fmt.Sprintf("pubdec/%s/%x", cname, raw))
+}
+
+// layoutPrefixPairs: two DIFFERENT inputs that share their first 32 / 33 / 34 / 65 bytes, decoded in both
+// orders, with a cold cache (a key never seen by this process) and a warm one (the same calls again). The
+// decoder keeps a cache indexed by the input bytes: what an input decodes to must not depend on which other
+// input was decoded before. Every decode is a model line, is re-evaluated at the end of the case, and has
+// its own oracle: what decodes re-encodes to the input, and an encoding followed by junk is refused.
+func layoutPrefixPairs(c *ctx) {
+	r, o := c.r, c.o
+	curve, cname := elliptic.Curve(elliptic.P256()), "r1"
+	fresh := func() *keys.PublicKey {
+		for {
+			d := r.Bytes(32)
+			d[0] &= 0x7f
+			if k, err := keys.NewPrivateKeyFromBytes(d); err == nil && k.X.Sign() != 0 {
+				return k.PublicKey()
+			}
+		}
+	}
+	dec := func(tag string, raw []byte, wantOK bool) {
+		rawCopy := append([]byte{}, raw...)
+		obs, pk := pubdecObs(raw, curve)
+		c.pureLine("pubdec "+cname+" "+hx.Hex(raw), obs, func() string { o, _ := pubdecObs(rawCopy, curve); return o })
+		if wantOK != (pk != nil) {
+			c.fail("pubkey-prefix-pair", "%s: NewPublicKeyFromBytes(%x) ok=%v, expected ok=%v (another input with the same prefix was decoded before)", tag, raw, pk != nil, wantOK)
+			return
+		}
+		if pk != nil {
+			re := pk.Bytes()
+			if len(raw) == 65 {
+				re = pk.UncompressedBytes()
+			}
+			if !bytes.Equal(re, raw) {
+				c.fail("pubkey-prefix-pair", "%s: %x decodes to the key %x", tag, raw, re)
+			}
+		}
+	}
+	type pair struct {
+		name   string
+		a, b   []byte
+		aOK, bOK bool
+	}
+	mk := func() []pair {
+		k := fresh()
+		comp, unc := k.Bytes(), k.UncompressedBytes()
+		neg := negKey(k).UncompressedBytes() // 04 || X || P-Y: same first 33 bytes as unc
+		return []pair{
+			{"33+junk1", comp, append(append([]byte{}, comp...), byte(r.Intn(256))), true, false},
+			{"33+junk32", comp, append(append([]byte{}, comp...), r.Bytes(32)...), true, false},
+			{"33-vs-32", comp, comp[:32], true, false},
+			{"33-vs-32+00", append(append([]byte{}, comp[:32]...), 0), comp[:32], false, false},
+			{"65-vs-negY", unc, neg, true, true},
+			{"65-vs-33of65", unc, unc[:33], true, false},
+			{"65+junk", unc, append(append([]byte{}, unc...), byte(r.Intn(256))), true, false},
+			{"comp-vs-otherparity", comp, append([]byte{comp[0] ^ 1}, comp[1:]...), true, true},
+		}
+	}
+	// a-then-b on one fresh key, b-then-a on another one; then everything again (warm)
+	for order := 0; order < 2; order++ {
+		ps := mk()
+		p := ps[r.Intn(len(ps))]
+		first, second, fOK, sOK := p.a, p.b, p.aOK, p.bOK
+		if order == 1 {
+			first, second, fOK, sOK = p.b, p.a, p.bOK, p.aOK
+		}
+		if p.name == "33-vs-32+00" && parseKey(p.a) != nil { // X||00 happens to be a key: no expectation
+			continue
+		}
+		for pass, temp := range []string{"cold", "warm"} {
+			_ = pass
+			dec(p.name+"/"+temp+"/first", first, fOK)
+			dec(p.name+"/"+temp+"/second", second, sOK)
+			o.Count(fmt.Sprintf("layout:prefixpair-%s-order%d-%s", p.name, order, temp))
+		}
+	}
+	o.Seen(fmt.Sprintf("prefixpair/%d", c.k))
 }
 
 func layoutSig(c *ctx) {
